@@ -112,6 +112,12 @@ def r1(ctx):
                 if not in_read_loop:
                     continue
                 n_loops += 1
+                if len(c.args) > 1:
+                    st = c.args[1]
+                    clamped = (isinstance(const(st, NO), int) and const(st) >= 0) or (isinstance(st, ast.Call) and isinstance(st.func, ast.Name) and st.func.id == "max" and any(const(a, NO) == 0 for a in st.args))
+                    ctx.check("C06.R1", clamped, key(f, "partial-search|" + norm(c)), site(f, c),
+                              "the delimiter search starts at the computed offset `%s`: when it is negative str.find counts from the END of the accumulator, so a delimiter that arrived "
+                              "completely in one read is not seen (and the parser waits for / consumes later bytes)" % norm(st), "search starts at a non-negative offset")
                 recv = c.func.value
                 if isinstance(recv, ast.Call) and isinstance(recv.func, ast.Attribute) and recv.func.attr == "getvalue":
                     ctx.ok("C06.R1", site(f, c), "search runs on the accumulator itself")
